@@ -210,16 +210,9 @@ Definition walk_at (t : tree) (target : bytes) : list stat :=
 Record subdir := { sd_stat : stat; sd_tree : tree }.
 Definition sd_name (d : subdir) : bytes := st_path (sd_stat d).
 
-Fixpoint insert_sd (x : subdir) (l : list subdir) : list subdir :=
-  match l with
-  | [] => [x]
-  | y :: l' => match cmp_bytes (sd_name x) (sd_name y) with
-               | Gt => y :: insert_sd x l'
-               | _ => x :: l
-               end
-  end.
-Fixpoint isort_sd (l : list subdir) : list subdir :=
-  match l with [] => [] | x :: l' => insert_sd x (isort_sd l') end.
+(* sort.Slice(dirs, dirs[i].Stat.Path < dirs[j].Stat.Path): the same insertion sort, keyed by name *)
+Definition isort_sd (l : list subdir) : list subdir :=
+  map snd (isort_kids (map (fun d => (sd_name d, d)) l)).
 
 Fixpoint mem_bytes (x : bytes) (l : list bytes) : bool :=
   match l with [] => false | y :: r => bytes_eqb x y || mem_bytes x r end.
@@ -372,6 +365,19 @@ Definition spec_walk_b (top : bytes) (snap : list (bytes * lrec)) (got : list st
   && parent_first_b top [] got
   && stats_true_b snap got.
 
+(* declarative prefixing of a sub-walk entry by the name d of its sub-root (SubDirFS): the path
+   and a hard-link name get "d/" in front; an absolute symlink target is re-rooted below "/d"
+   (and lexically cleaned, as path.Join does); a relative symlink target is kept *)
+Definition prefix_stat (d : bytes) (st : stat) : stat :=
+  let st1 := set_path st (d ++ sep :: st_path st) in
+  match st_linkname st with
+  | [] => st1
+  | ln =>
+    if mode_is_symlink (st_mode st) then
+      (if is_abs ln then set_linkname st1 (clean (sep :: d ++ sep :: ln)) else st1)
+    else set_linkname st1 (d ++ sep :: ln)
+  end.
+
 (* sub-target selection on a snapshot: target itself and everything below it *)
 Definition below_b (target p : bytes) : bool :=
   match target with
@@ -438,3 +444,13 @@ Fixpoint seen_after (seen : list (N * bytes)) (l : list (bytes * lrec)) : list (
 
 (* the Stat of an entry when no earlier entry shares its inode *)
 Definition base_stat (p : bytes) (r : lrec) : stat := fst (mkstat p r []).
+
+(* SubDirFS: the callbacks contributed by one sub-root = its own Stat, then its walk prefixed *)
+Definition sd_block (d : subdir) : list (bytes * stat) :=
+  (sd_name d, sd_stat d)
+  :: map (fun st => (sd_name d ++ sep :: st_path st, prefix_stat (sd_name d) st)) (walk (sd_tree d)).
+
+(* proper sub-roots: single-component names, pairwise distinct, directory Stats, well-formed trees *)
+Definition sd_wf (ds : list subdir) : Prop :=
+  Forall (fun d => wf_name (sd_name d) /\ st_is_dir (sd_stat d) = true /\ wf_tree (sd_tree d)) ds
+  /\ NoDup (map sd_name ds).
